@@ -226,6 +226,8 @@ var words = []string{"inf", "Inf", "INF", "-inf", "+Inf", "Infinity", "-Infinity
 	"1e5", "1E5", "0x1p4", "0x10", "1_0", "1__0", "0b1", "0o7", "1e", "e1", ".5", "5.", "+.5", "-.", ".", "+", "-", "--1", "+-1", "1.2.3", "00", "-0", "+0", "007", "1e400", "1e-400",
 	strings.Repeat("9", 19), strings.Repeat("9", 40), strings.Repeat("9", 310), strings.Repeat("9", 400) + ".5", "-" + strings.Repeat("1", 330), "9223372036854775807", "9223372036854775808", "-9223372036854775808", "-9223372036854775809",
 	`"str"`, `"a\nb"`, `"é"`, `"unterminated`, `bad"`, `"`, `""`, `"\x"`, `"""`, `""""`, `"x"x"`, `"1"_"`, `"true"-1.5"`, `"a" "b"`, `"a"\n"`, `'aGVsbG8'`, `'aGVsbG8='`, `'aGVsbG8sIHdvcmxk'`, `''`, `'`, `'!!!'`, `'abc`, `abc'`, `'YQ=='`, `'YQ'`,
+	// the standard alphabet (+ and /) is base64 here, the URL-safe one (- and _) is not
+	`'+/+/'`, `'ab+/'`, `'/w=='`, `'-_-_'`, `'ab-_'`, `'_w=='`,
 	"plain", "with space", "é", "a=b", "3.14159", "-16", "25", "+7", "1.0", "100.000"}
 
 func genValue(t *rapid.T) string {
